@@ -160,8 +160,12 @@ func joinRel(prefix, rel string) string {
 // serverURLFor starts (once per directory) the real "whispertool server" serving dir, in a child process
 // (the command registers its handlers on the process-wide mux: one server per process).  The child ends
 // with the case.
-func (s *sess) serverURLFor(dir string) string {
-	key := "deepurl:" + dir
+func (s *sess) serverURLFor(dir string) string { return s.serverURLRel("", dir) }
+
+// serverURLRel: as serverURLFor, the child started in the directory cwd (if not empty) with the base as given --
+// possibly a relative one.
+func (s *sess) serverURLRel(cwd, dir string) string {
+	key := "deepurl:" + cwd + ":" + dir
 	if u, ok := s.st[key].(string); ok {
 		return u
 	}
@@ -170,6 +174,7 @@ func (s *sess) serverURLFor(dir string) string {
 	addr := l.Addr().String()
 	l.Close()
 	c := exec.Command(os.Args[0], "--child", "server", addr, dir)
+	c.Dir = cwd
 	stdin, err := c.StdinPipe()
 	must(err)
 	must(c.Start())
